@@ -72,7 +72,7 @@ func runObligations(frs []*FuncResult, dir string, secs int, wantModels bool) []
 			defer wg.Done()
 			q := or.Fn.VC.query(or.O, wantModels)
 			or.Qry = q
-			if len(q) > 400000 {
+			if len(q) > 3000000 {
 				or.R = SolveResult{Status: "error", Raw: "query exceeds size cap"}
 				return
 			}
